@@ -38,12 +38,38 @@ var ReqFields = []Field{
 	{"connection", []string{"canon", "absent", "lower", "upper", "padded", "case", "CASE", "wrong", "dup-same", "triple-same", "dup-conflict", "first", "middle", "last", "nearmiss", "list-without"}},
 	{"wsversion", []string{"canon", "absent", "lower", "upper", "padded", "wrong", "dup-same", "triple-same", "dup-conflict", "empty"}},
 	{"key", []string{"canon", "absent", "lower", "upper", "padded", "23", "25", "nonb64", "dup-same", "triple-same", "dup-conflict"}},
-	{"protocol", []string{"absent", "a", "a, b", "b,a", "malformed", "two-headers", "three-headers"}},
-	{"extensions", []string{"absent", "one", "two", "malformed", "pmd", "two-headers", "three-headers"}},
+	{"protocol", []string{"absent", "a", "a, b", "b,a", "malformed", "two-headers", "three-headers", "many"}},
+	{"extensions", []string{"absent", "one", "two", "malformed", "pmd", "two-headers", "three-headers", "many"}},
 	{"extra", []string{"none", "before", "between", "after"}},
 	{"order", []string{"canonical", "reversed", "rotated"}},
 	{"lineend", []string{"CRLF", "LF"}},
 }
+
+// ManyProtocols: 20 tokens nobody selects, then "a" and "b" (longer than any small fixed-size
+// array an implementation may keep).
+var ManyProtocols = func() []string {
+	var out []string
+	for i := 1; i <= 20; i++ {
+		out = append(out, fmt.Sprintf("p%02d", i))
+	}
+	return append(out, "a", "b")
+}()
+
+// ManyExtensions: 20 extensions e01..e20, the first with 12 parameters, then x (with a
+// parameter) and y.
+var ManyExtensions = func() string {
+	var out []string
+	for i := 1; i <= 20; i++ {
+		e := fmt.Sprintf("e%02d", i)
+		if i == 1 {
+			for k := 1; k <= 12; k++ {
+				e += fmt.Sprintf("; k%02d=%d", k, k)
+			}
+		}
+		out = append(out, e)
+	}
+	return strings.Join(append(out, "x; p=1", "y"), ", ")
+}()
 
 // Req is an assignment of a variant index to each field.
 type Req []int
@@ -161,6 +187,8 @@ func (r Req) Build() []byte {
 		hs = append(hs, []hline{{"Sec-WebSocket-Protocol", "a"}, {"Sec-WebSocket-Protocol", "b"}})
 	case "three-headers":
 		hs = append(hs, []hline{{"Sec-WebSocket-Protocol", "c"}, {"Sec-WebSocket-Protocol", "a"}, {"Sec-WebSocket-Protocol", "b"}})
+	case "many":
+		hs = append(hs, []hline{{"Sec-WebSocket-Protocol", strings.Join(ManyProtocols, ", ")}})
 	}
 	switch r.V("extensions") {
 	case "one":
@@ -173,6 +201,8 @@ func (r Req) Build() []byte {
 		hs = append(hs, []hline{{"Sec-WebSocket-Extensions", "permessage-deflate; client_max_window_bits, x"}})
 	case "two-headers":
 		hs = append(hs, []hline{{"Sec-WebSocket-Extensions", "x; p=1"}, {"Sec-WebSocket-Extensions", "y"}})
+	case "many":
+		hs = append(hs, []hline{{"Sec-WebSocket-Extensions", ManyExtensions}})
 	case "three-headers":
 		hs = append(hs, []hline{{"Sec-WebSocket-Extensions", "y"}, {"Sec-WebSocket-Extensions", "permessage-deflate"}, {"Sec-WebSocket-Extensions", "x; p=1"}})
 	}
@@ -329,6 +359,8 @@ func (r Req) OfferedProtocols() []string {
 		return []string{"a", "b"}
 	case "three-headers":
 		return []string{"c", "a", "b"}
+	case "many":
+		return ManyProtocols
 	case "b,a":
 		return []string{"b", "a"}
 	}
@@ -344,6 +376,12 @@ func (r Req) OfferedExtensions() []string {
 		return []string{"x", "y"}
 	case "three-headers":
 		return []string{"y", "permessage-deflate", "x"}
+	case "many":
+		var out []string
+		for i := 1; i <= 20; i++ {
+			out = append(out, fmt.Sprintf("e%02d", i))
+		}
+		return append(out, "x", "y")
 	case "pmd":
 		return []string{"permessage-deflate", "x"}
 	}
